@@ -50,7 +50,7 @@ VER_DOM = ["gid(field(nixfile, '_root')) != 0", "is_intseq(dec(attr(gid(field(ni
 VER_LET = "v = as_intseq(dec(attr(gid(field(nixfile, '_root')), 'version')))"
 
 REG.contract(
-    "nixio.file.can_write", props=["C11"],
+    "nixio.file.can_write", replay=dict(harness="c11_header"), props=["C11"],
     params=dict(nixfile=Obj("File")), result=Bool, requires=VER_DOM, let=VER_LET,
     raises={"RuntimeError": ("len(v) != 3", "prop")},
     # property: a file whose format version differs from the library's is refused for writing
@@ -58,7 +58,7 @@ REG.contract(
     prop_clauses=["w", "raises-iff:RuntimeError", "raises-only:RuntimeError"])
 
 REG.contract(
-    "nixio.file.can_read", props=["C11"],
+    "nixio.file.can_read", replay=dict(harness="c11_header"), props=["C11"],
     params=dict(nixfile=Obj("File")), result=Bool, requires=VER_DOM, let=VER_LET,
     raises={"RuntimeError": ("len(v) != 3", "prop")},
     # property: readable exactly when same major version and a minor version not newer than the library's
@@ -81,7 +81,7 @@ HDR_LET = ("R = gid(field(self, '_root')); fmt = dec(attr(R, 'format')); v = as_
            "ge120 = (v[0] > 1 or (v[0] == 1 and (v[1] > 2 or (v[1] == 2 and v[2] >= 0))))")
 
 REG.contract(
-    "nixio.file.File._check_header", props=["C11"],
+    "nixio.file.File._check_header", replay=dict(harness="c11_header"), props=["C11"],
     params=dict(self=Obj("File"), mode=Str),
     requires=["gid(field(self, '_root')) != 0", "is_intseq(dec(attr(gid(field(self, '_root')), 'version')))",
               "len(as_intseq(dec(attr(gid(field(self, '_root')), 'version')))) == 3"],
